@@ -33,4 +33,22 @@ CHECKS = {
         'note': 'Not yet under contract (work in progress): parse_smtlib, writers, auto_detect_theories wiring, Producer/Consumer containment. Assumed: Node.__eq__/__hash__ contract (C12), leaf texts non-empty, nodes.contains contract, logging calls dropped (arguments not evaluated).',
         'technique': 'contract-based deductive verification: path-wise VCs from the real AST over lazy symbolic trees (z3 datatype+sequence theory), adversarial callee models',
     },
+    'C11': {
+        'category': 'exploration',
+        'text': 'Bounded: the real nodes.substitute is run on every forest with <= 4 nodes (5 thorough) for every choice of <= 2 identity keys, one structural key and five replacement forms (incl. replacements containing their key, deletions, top-level positions, single-Node arguments) under a run-time contract: result equals a recursive reference substitution that never looks inside a replacement, the argument is not modified, untouched subtrees are the same objects, it terminates. Symbolic contracts (contents unbounded, list length bounded): introduce_variables inserts the declarations, by identity, right after the maximal set-info/set-logic prefix and does not modify its argument; apply_simp wires substitute/introduce_variables as documented (inserts only if something changed).',
+        'note': 'Decisive part for substitute is bounded (shape <= 4/5 nodes, alphabet {a,b}), never counted as proved. introduce_variables is proved for arbitrary commands but lists of <= 3 (5) commands. Node.__eq__ used through its contract.',
+        'technique': 'run-time contracts on the real function over an exhaustively enumerated domain (bounded stand-in) + path-wise VCs (z3) for introduce_variables/apply_simp',
+    },
+    'C12': {
+        'category': 'exploration',
+        'text': 'The real Node.__eq__/__hash__ are executed symbolically on every pair of tree shapes with <= 4 nodes each (5 thorough) with symbolic ids, symbolic leaf texts and uninterpreted hash functions, i.e. including hash collisions between different structures and shared ids, and shown to agree with structural equality; binary_search is proved for all input lengths (bounds, no division by zero, ranking function) with loop invariants; deepcopy, pickling in-process and through a fork pool, dfs/bfs/count_*/filter_nodes are checked natively against nested-list references on all trees/forests up to 5-7 nodes.',
+        'note': 'Shape-bounded, content-unbounded for equality; copy/pickle/traversal bounded natively. Assumed: class invariant hash == hash(data) for operands, fork start method (shared id counter and hash seed), ids < 2**31, floats as reals in binary_search.',
+        'technique': 'shape-bounded symbolic execution of the real methods against a structural contract (z3) + bounded native run-time contracts; loop-invariant proof for binary_search',
+    },
+    'C13': {
+        'category': 'exploration',
+        'text': 'The real nodes.reduplicate is run on every DAG obtained from a forest with <= 6 nodes (7 thorough) by sharing one object at any set of structurally equal positions (incl. shared empty lists, whole shared trees) under a run-time contract: ids pairwise distinct over positions afterwards, rendered tokens unchanged, argument not modified, nodes that were already unique are the same objects.',
+        'note': 'Bounded stand-in only so far; call-site obligations (every input handed to Producer/TaskGenerator is parser output or a reduplicate result) are planned with the strategy contracts.',
+        'technique': 'run-time contract on the real function over an exhaustively enumerated domain (bounded stand-in)',
+    },
 }
